@@ -185,7 +185,15 @@ func drawProgram(t *rapid.T) *program {
 		}
 	case 1:
 		pr.outcome = "load-error"
-		pr.files["p/zsyntax.go"] = "package p\n\nfunc zsyntax( {\n"
+		if rapid.Bool().Draw(t, "syntax-error-in-call-file") {
+			// the syntax error sits in a file that also holds derive calls (after them): whatever happens to
+			// the calls, a file that does not parse cannot be reprinted from its syntax tree
+			k := fmt.Sprintf("p/f%d.go", rapid.IntRange(0, nfiles-1).Draw(t, "syntax-file"))
+			pr.files[k] += "\nfunc zsyntaxIn( {\n}\n\nfunc After() int { return 1 }\n"
+			pr.desc = append(pr.desc, "syntax-error-in-"+k)
+		} else {
+			pr.files["p/zsyntax.go"] = "package p\n\nfunc zsyntax( {\n"
+		}
 	default:
 		pr.outcome = "normal"
 	}
